@@ -1,3 +1,5 @@
+import os
+
 from inspect import getmodule
 from collections import abc
 from pathlib import Path
@@ -171,7 +173,7 @@ class Experiment:
 
         if result_file and Path(result_file).exists():
             CobaContext.logger.log("Restoring Results")
-            restored = Result.from_file(result_file)
+            restored = self._restore(result_file)
         else:
             restored = None
 
@@ -207,6 +209,20 @@ class Experiment:
         del CobaContext.store['experiment_seed']
 
         return Pipes.join(source,decode,result).read()
+
+    def _restore(self, result_file:str) -> Optional[Result]:
+        #A run that was killed can leave a record that was only partly written at the end of the
+        #file. We keep the complete records (new records are appended so the file must end cleanly).
+        lines = [line for line,_ in TransactionDecode.complete(DiskSource(result_file).read())]
+
+        if not lines:
+            os.remove(result_file)
+            return None
+
+        DiskSink(result_file+".tmp",mode='w').write(lines)
+        os.replace(result_file+".tmp",result_file)
+
+        return Result.from_file(result_file)
 
     def _parse_init_args(self,*args,**kwargs) -> Tuple[Sequence[Tuple[Environment,Learner]], Evaluator, Optional[str]]:
         #we know this with 100% certainty
